@@ -326,8 +326,18 @@ class C20:
             if r.get('error'):
                 print('HARNESS ERROR: subprocess replay failed: %s' % r['error'])
                 return 2
-            if r['outs'] != outs or r['state'] != k:
-                print('HARNESS ERROR: the in-process search and a fresh process disagree on history %s (state %s vs %s)' % (hist, r['state'], k))
+            if r['outs'] != outs:
+                # In a fresh process the same history produces another output than the (state-restoring) search recorded: the output
+                # depends on something outside the scanned state -- a cache in a closure, a C-level object -- i.e. on earlier elections.
+                j = next(i for i, (a, b) in enumerate(zip(r['outs'], outs)) if a != b)
+                li = hist[j]
+                sig = 'C20|%s|%s|history-dependence|hidden-state' % (L[li][1]['rule'], L[li][1].get('arithmetic', 'default'))
+                if sig not in viol or len(hist[:j]) < len(viol[sig][1]):
+                    viol[sig] = ('output of %s after the history %s differs between a fresh process and the state-restoring search: state outside the '
+                                 'scanned module/class data leaks between elections' % (L[li], [L[h] for h in hist[:j]]), hist[:j], li)
+                continue
+            if r['state'] != k:
+                print('HARNESS ERROR: the in-process search and a fresh process disagree on the state reached by history %s (%s vs %s)' % (hist, r['state'], k))
                 return 2
             validated += 1
         # ---- confirm + report violations
